@@ -48,7 +48,8 @@ func (g *Gen) genStatHistory(prop string) {
 	factor := func() float64 {
 		switch r.Pick(40, 15, 15, 10, 10, 5, 5) {
 		case 0:
-			return []float64{0.5, 0.25, 2, 4, 1.5, 0.75, 3, 1, 0.125, 1000, 0.001}[r.Intn(11)]
+			// (unit changes: ns -> s, bytes -> GiB, ms -> s … factors far from 1)
+			return []float64{0.5, 0.25, 2, 4, 1.5, 0.75, 3, 1, 0.125, 1000, 0.001, 1e-9, 1e-6, 1.0 / (1 << 30), 1e9, 1.0 / 1024, 1e-12}[r.Intn(17)]
 		case 1:
 			return 0
 		case 2:
